@@ -21,6 +21,27 @@ pub fn clean_build(g: &Graph) -> BTreeMap<String, String> {
     out
 }
 
+/// What the *driver* saw at a job's last successful execution: the ground truth that "up to date"
+/// is about, independent of what the engine wrote into its history.
+#[derive(Clone, Debug, Default)]
+pub struct ShadowRec {
+    pub input_names: String,
+    /// consumed name -> value the job was built from
+    pub consumed: BTreeMap<String, String>,
+    /// own output name -> value
+    pub outs: BTreeMap<String, String>,
+    /// consumed name -> id of the job that produced it then
+    pub consumed_from: BTreeMap<String, String>,
+}
+
+/// Ground truth kept by the harness; `clean` = jobs for which it applies without caveat (no edit
+/// touched their input set since the last success, no history wipe since).
+#[derive(Clone, Debug, Default)]
+pub struct Shadow {
+    pub rec: BTreeMap<String, ShadowRec>,
+    pub dirty: BTreeSet<String>,
+}
+
 pub struct Expect {
     pub uptodate: BTreeMap<String, bool>,
     pub executed: BTreeSet<String>,
@@ -78,6 +99,12 @@ pub fn old_edge_record<'a>(h: &'a History, up: &str, down: &str, ambiguous: &mut
 /// `tainted`: jobs whose last attempt failed or was cut short by an abort while running ("no failed
 /// attempt has touched it since" - known to the driver, independent of what the engine recorded).
 pub fn expected(g: &Graph, h: &History, disk: &BTreeMap<String, String>, mode: CmpMode, tainted: &BTreeSet<String>) -> Expect {
+    expected_with(g, h, disk, mode, tainted, None)
+}
+
+/// With `shadow`: for every job the ground truth applies to, "up to date" is decided from what the
+/// driver saw the job consume at its last success instead of from the engine's records.
+pub fn expected_with(g: &Graph, h: &History, disk: &BTreeMap<String, String>, mode: CmpMode, tainted: &BTreeSet<String>, shadow: Option<&Shadow>) -> Expect {
     let consumed = g.consumed();
     let mut ambiguous = false;
     let mut used_renamed = BTreeSet::new();
@@ -111,11 +138,33 @@ pub fn expected(g: &Graph, h: &History, disk: &BTreeMap<String, String>, mode: C
                 used_renamed.insert(n.id.clone());
             }
         }
+        if let Some(sh) = shadow {
+            if !sh.dirty.contains(&n.id) {
+                match sh.rec.get(&n.id) {
+                    // never succeeded (since the last wipe): not up to date, whatever the history says
+                    None => ok = false,
+                    Some(r) => {
+                        let mut t = r.input_names == g.input_names(&n.id) && !tainted.contains(&n.id);
+                        if n.kind == JobKind::Output && !n.outs.iter().all(|o| disk.contains_key(o)) {
+                            t = false;
+                        }
+                        for name in &n.inputs {
+                            if cur.get(name) != r.consumed.get(name) {
+                                t = false;
+                            }
+                        }
+                        ok = t;
+                    }
+                }
+            }
+        }
         uptodate.insert(n.id.clone(), ok);
         if useless {
             if ok {
-                currec.insert(n.id.clone(), h[&n.id].clone());
-                cur.extend(parse_rec(&h[&n.id]));
+                if let Some(r) = h.get(&n.id) {
+                    currec.insert(n.id.clone(), r.clone());
+                    cur.extend(parse_rec(r));
+                }
             }
             continue;
         }
@@ -133,8 +182,14 @@ pub fn expected(g: &Graph, h: &History, disk: &BTreeMap<String, String>, mode: C
             currec.insert(n.id.clone(), rec_of(&vals));
             cur.extend(vals);
         } else {
-            currec.insert(n.id.clone(), h[&n.id].clone());
-            cur.extend(parse_rec(&h[&n.id]));
+            // skipped: its current output is what it produced at its last success
+            let r = match (h.get(&n.id), shadow.and_then(|s| s.rec.get(&n.id))) {
+                (Some(r), _) => r.clone(),
+                (None, Some(sr)) => rec_of(&sr.outs),
+                (None, None) => String::new(),
+            };
+            cur.extend(parse_rec(&r));
+            currec.insert(n.id.clone(), r);
         }
     }
     let mut executed = must.clone();
